@@ -283,6 +283,10 @@ def pairs():
         ([P("parse p1 as Pick, lenient (lxml)")], [P("parse bad value as A, lenient (lxml)")], []),
         ([P("parse p1 as Pick, lenient (lxml)")], [P("parse p1 as Pick, lenient (lxml)")], [P("parse bad value as A, lenient (lxml)")]),
         ([P("parse rootx1 as Shape (lxml)")], [P("parse rootx2 as Vehicle (lxml)")], []),
+        # a reader that walks the whole type index (class-less JSON) next to lookups of names no model is bound to (wildcard children)
+        ([ja], [P("parse d1 as Drawing (lxml)")], []),
+        ([ja], [P("parse d2 as Drawing (native)")], [auto_b]),
+        ([ja], [P("parse d1 as Drawing (lxml)")], [auto_b]),
     ]
 
 
